@@ -326,6 +326,34 @@ def rule_shortcut(ctx, fi, it):
               "with gamma == 0 the initial step is not the whole length (the adaptive formula divides by gamma)")
 
 
+def rule_dop(ctx, fi, it, rule):
+    """the linear operator of the NLSE: D = -alpha'/2 - j/2*beta2*W^2 - j/6*beta3*W^3, W = w*1e-12 (shared with C07.3)"""
+    w = 2 * PI * mk_fn("fftfreq", [mk_fn("siglen", [S("input.signal")])]) * S("gv.fs")
+    W = w * Form.num(Fraction(1, 10 ** 12))
+    dop, dop_stmt, _dop_name = find_dop(it)
+    if not isinstance(dop, Form):
+        ctx.unknown(rule, fi, fi.node, "FIBER D_op", "dispersion operator `D_op` not found")
+        return None
+    loss = Form({m: c for m, c in dop.terms.items() if any(a == ("sym", "alpha") for a, _ in m)})
+    b2 = Form({m: c for m, c in dop.terms.items() if any(a == ("sym", "beta_2") for a, _ in m)})
+    b3 = Form({m: c for m, c in dop.terms.items() if any(a == ("sym", "beta_3") for a, _ in m)})
+    rest = dop - loss - b2 - b3
+    want2 = Form.num(0, -1) / 2 * S("beta_2") * W * W
+    want3 = Form.num(0, -1) / 6 * S("beta_3") * W * W * W
+    ctx.check(rule, b2 == want2, fi, dop_stmt, f"D_op beta_2 term = {b2!r}", "-j/2*beta2*(w*1e-12)^2", f"differs from {want2!r}")
+    ctx.check(rule, b3 == want3, fi, dop_stmt, f"D_op beta_3 term = {b3!r}", "-j/6*beta3*(w*1e-12)^3", f"differs from {want3!r}")
+    ctx.check(rule, rest.is_zero(), fi, dop_stmt, f"D_op other terms = {rest!r}", "none", "dispersion operator has terms besides loss, beta2, beta3")
+    q = (loss / S("alpha")).rational()
+    if q is None or q == 0:
+        ctx.violation(rule, fi, dop_stmt, f"D_op loss term = {loss!r}", "loss term is not a real constant times alpha")
+    else:
+        k = -1 / (2 * q)   # loss = -alpha/(2k)
+        ok = abs(float(k) - 4.342944819) < 5e-3
+        ctx.check(rule, ok, fi, dop_stmt, f"D_op loss term = {loss!r}", f"-alpha/(2*{float(k):.4f}), 10/ln10 = 4.3429",
+                  f"loss term is -alpha/(2*{float(k):.5g}); the dB->neper constant must be 10/ln(10)=4.3429 (power law 10^(-alpha*L/10) broken)")
+    return b2, dop_stmt
+
+
 def run(ctx):
     pkg = ctx.pkg
     fi = pkg.func("devices.FIBER")
@@ -337,6 +365,7 @@ def run(ctx):
     rule_steps(ctx, fi, itz, None, "C08.2", gamma=gz, label=" [gamma == 0]")
     rule_rank_guard(ctx, fi)
     rule_shortcut(ctx, fi, it)
+    rule_dop(ctx, fi, it, "C08.6")       # the scheme converges to the NLSE only with the NLSE's own linear operator
     # the noise-free output is built from the propagated field with the input's layout
     outs = [o for o in it.outcomes if o.kind == "return"]
     check_late_binding(ctx, "C08.5", ["devices.FIBER"])
@@ -344,3 +373,4 @@ def run(ctx):
     ctx.require_min("C08.2", 2)
     ctx.require_min("C08.3", 1)
     ctx.require_min("C08.4", 2)
+    ctx.require_min("C08.6", 4)
